@@ -707,7 +707,7 @@ package wire
 //@   ensures [B-error-once] {C06} #nE <= old(#nE) + 1 && #nE >= old(#nE)
 //@   ensures [err-kind] result != nil ==> !isExceeded(result)
 //@   ensures [no-Z-unless-Sync] {C06} #nZ == old(#nZ)
-//@   atreturn [unknown-name-E] {C06} (stmt == nil && err == nil && result == nil) ==> #nE == old(#nE) + 1
+//@   atreturn [unknown-name-E] {C06} (stmt == nil && err == nil) ==> (#nE == old(#nE) + 1 || #failed)
 //@   callsite iface:wire.StatementCache.Get [by-name] {C07} $name == statement
 //@   callsite iface:wire.PortalCache.Bind [passes] {C07 C08} $name == name && $statement == stmt && $parameters == parameters && $columns == formats && $ctx == ctx
 //@   ensures [pos-monotone] reader.Buffer.#pos >= old(reader.Buffer.#pos)
